@@ -11,6 +11,11 @@
 (*        rules) the interpreter stacks do not all behave alike            *)
 (*   fails-applicable : some interpreter failed on an applicable one       *)
 (*   returned : an interpreter returned a different conclusion             *)
+(*   module-refused / files-gamma / files-claim / files-proof : (whole     *)
+(*        modules) the toolkit refused an applicable module, or one of the *)
+(*        three files it wrote differs from ModuleFiles(m), the files the  *)
+(*        model proves the machine verifies;  rust-rejects : the real      *)
+(*        verify() did not accept the files                                *)
 (*   calls : the primitive interpreter calls the real ProofThunk made in   *)
 (*        the proof phase are not ExprCalls(r) (ProofExpRun), the sequence *)
 (*        the model proves to be accepted by the machine                   *)
@@ -34,5 +39,22 @@ CheckTrace(i) ==
        ELSE IF \E k \in oks : Len(c.interps[k].concs) # 1 \/ Expand(c.interps[k].concs[1]) # Expand(e.c) THEN "returned"
        ELSE IF c.hascalls /\ c.calls # Methods(ExprCalls(c.r)) THEN "calls"
        ELSE ""
-INSTANCE TraceBlocks WITH NCases <- Len(Cases), Check <- CheckTrace
+\* The toolkit's Pattern.instantiate keeps notation nodes inside an instantiated conclusion while Conc expands them, so
+\* a claim file may differ in bytes; it must then declare exactly the same claims to the machine.
+SameClaims(gamma, real, predicted) ==
+  LET g == RunPhase(gamma, InitState("gamma")) IN
+  g.ok /\ LET a == RunPhase(real, NextPhase(g.st))  b == RunPhase(predicted, NextPhase(g.st)) IN
+          a.ok /\ b.ok /\ a.st.claims = b.st.claims /\ a.st.memory = b.st.memory
+CheckModule(i) ==
+  LET c == Cases[i]  m == c.m IN
+  IF ~ModuleApplicable(m) THEN ""
+  ELSE IF ~c.built \/ c.error # "" THEN "module-refused"
+  ELSE LET f == ModuleFiles(m).files IN
+       IF c.files[1] # f.gamma THEN "files-gamma"
+       ELSE IF c.files[2] # f.claim /\ ~SameClaims(c.files[1], c.files[2], f.claim) THEN "files-claim"
+       ELSE IF c.files[3] # f.proof THEN "files-proof"
+       ELSE IF c.rust # "ok" THEN "rust-rejects"
+       ELSE ""
+CheckAny(i) == IF "m" \in DOMAIN Cases[i] THEN CheckModule(i) ELSE CheckTrace(i)
+INSTANCE TraceBlocks WITH NCases <- Len(Cases), Check <- CheckAny
 =============================================================================
